@@ -57,7 +57,8 @@ DECIDING = {
     "unsubscribe_timing_checks": 200, "unsubscribe_sent_on_last": 50, "unsubscribe_withheld_handlers_remain": 50,
     "never_held_checked": 20, "racing_events_checked": 20, "decorated_object_invocations": 20,
     "details_checked": 200, "liveness_probes": 100, "removed_midfanout_checked": 20, "coroutine_handler_invocations": 50,
-    "falsy_object_invocations": 10,
+    "falsy_object_invocations": 10, "same_class_instance_invocations": 200, "same_class_events_after_partial_unsubscribe": 50,
+    "same_class_unsubscribe_positions": 3,
 }
 
 COMBOS = [("websocket", "json"), ("websocket", "msgpack"), ("websocket", "cbor"), ("websocket", "ubjson"),
@@ -120,6 +121,10 @@ class Exec:
         self.sub_out = {}        # hid -> Outcome of subscribe()   (plain form)
         self.obj_out = {}        # oid -> Outcome of subscribe(obj)
         self.objs = {}           # oid -> instance
+        self.classes = {}        # class key -> decorated class (objects with the same "cls" value are instances of ONE class)
+        self.members = {}        # class key -> [oid] instantiated so far
+        self.shared = {}         # hid -> (class key, method index) for handlers of a class with >= 2 instances
+        self.sc_unsub = set()    # (class key, method index, sid) with an instance unsubscribed while siblings stay
         self.expect_unsub = {}   # sid -> number of UNSUBSCRIBE messages that must appear on the wire now
         self.pending_withheld = 0  # unsubscribe() calls since the last wire check that must NOT produce an UNSUBSCRIBE
         # ---- router
@@ -223,19 +228,55 @@ class Exec:
     # -- handlers -----------------------------------------------------------------------------
     def make_fn(self, hid):
         ex = self
-        oid = self.Hs[hid]["obj"]
-        if oid is None:
-            def fn(*a, **k):
-                return ex.on_invoke(hid, None, a, k)
-        else:
-            # an (unbound) method: the library must pass the subscribed object first.  *a instead of a named ``self``
-            # so that a missing object is classified as such (published args are never identical to the object)
-            def fn(*a, **k):
-                if a and a[0] is ex.objs.get(oid):
-                    return ex.on_invoke(hid, a[0], a[1:], k)
-                return ex.on_invoke(hid, None, a, k)
+
+        def fn(*a, **k):
+            return ex.on_invoke(hid, None, a, k)
         fn.__name__ = "h%d" % hid
         return fn
+
+    def make_method(self, key, n):
+        """Method n of the decorated class ``key``: ONE function object in the class, shared by all its instances (that
+        is what the library stores as Handler.fn); it dispatches to the per-instance handler by the identity of the
+        object it is called with.  *a instead of a named ``self`` so that a missing object is classified as such
+        (published args are never identical to a subscribed object)."""
+        ex = self
+
+        def fn(*a, **k):
+            if a:
+                for oid in ex.members[key]:
+                    if a[0] is ex.objs.get(oid):
+                        return ex.on_invoke(ex.Os[oid]["hids"][n], a[0], a[1:], k)
+            return ex.on_invoke(ex.Os[ex.members[key][0]]["hids"][n], None, a, k)
+        fn.__name__ = "m%02d" % n
+        return fn
+
+    def class_key(self, oid):
+        c = self.Os[oid].get("cls")
+        return "own%d" % oid if c is None else "cls%d" % c
+
+    def class_for(self, oid):
+        from autobahn import wamp
+        from autobahn.wamp.types import SubscribeOptions
+        key = self.class_key(oid)
+        ospec = self.Os[oid]
+        templ = [(self.Hs[x]["ti"], self.Hs[x]["det"], self.Hs[x]["own"]) for x in ospec["hids"]]
+        if key in self.classes:
+            if self.classes[key][1] != templ or self.classes[key][2] != bool(ospec.get("falsy")):
+                raise RuntimeError("harness: instances of class %s differ in their method table" % key)
+            return self.classes[key][0]
+        ns = {}
+        for n, (ti, det, own) in enumerate(templ):
+            topic = self.Ts[ti]
+            # own options (even empty ones) take precedence over the options given to subscribe(obj, options=..)
+            opts = (self._options(topic, det) or SubscribeOptions()) if own else None
+            ns["m%02d" % n] = wamp.subscribe(topic["uri"], options=opts)(self.make_method(key, n))
+        ns["not_a_handler"] = lambda self_: None
+        if ospec.get("falsy"):
+            ns["__len__"] = lambda self_: 0          # a component that is also an (empty) container: bool(obj) is False
+        cls = type("Obj_%s" % key, (object,), ns)
+        self.classes[key] = (cls, templ, bool(ospec.get("falsy")))
+        self.members[key] = []
+        return cls
 
     def on_invoke(self, hid, selfobj, a, k):
         import txaio
@@ -304,9 +345,10 @@ class Exec:
             raise Ended()
         for hid, m in zip(hids, subs):
             topic = self.Ts[self.Hs[hid]["ti"]]
-            if self.Hs[hid]["obj"] is None and (len(m) != 4 or m[3] != topic["uri"]
-                                                 or (m[2] or {}).get("match", "exact") != (topic["match"] or "exact")):
-                self.viol("C11/%s/subscribe-wire" % ctx, "SUBSCRIBE %r does not carry topic/match of %r" % (m, topic))
+            # a decorated method without own options gets the options of subscribe(obj, options=..), which carry no match
+            match = topic["match"] if (self.Hs[hid]["obj"] is None or self.Hs[hid]["own"]) else None
+            if len(m) != 4 or m[3] != topic["uri"] or (m[2] or {}).get("match", "exact") != (match or "exact"):
+                self.viol("C11/%s/subscribe-wire" % ctx, "SUBSCRIBE %r does not carry topic %r / match %r" % (m, topic["uri"], match or "exact"))
             self.rq.append({"kind": "sub", "req": m[1], "ti": self.Hs[hid]["ti"], "hid": hid})
             self.state[hid] = "pending"
 
@@ -331,22 +373,18 @@ class Exec:
         hids = ospec["hids"]
         if oid in self.objs or any(self.state[x] != "new" for x in hids):
             return False
-        ns = {}
-        for n, hid in enumerate(hids):
-            spec = self.Hs[hid]
-            topic = self.Ts[spec["ti"]]
-            # own options (even empty ones) take precedence over the options given to subscribe(obj, options=..)
-            opts = (self._options(topic, spec["det"]) or SubscribeOptions()) if spec["own"] else None
-            ns["m%02d_h%d" % (n, hid)] = wamp.subscribe(topic["uri"], options=opts)(self.make_fn(hid))
-        ns["not_a_handler"] = lambda self_: None
-        if ospec.get("falsy"):
-            ns["__len__"] = lambda self_: 0          # a component that is also an (empty) container: bool(obj) is False
-        obj = type("Obj%d" % oid, (object,), ns)()
+        key = self.class_key(oid)
+        obj = self.class_for(oid)()
         self.objs[oid] = obj
+        self.members[key].append(oid)
+        if len(self.members[key]) >= 2:
+            for o in self.members[key]:
+                for n, x in enumerate(self.Os[o]["hids"]):
+                    self.shared[x] = (key, n)
         objopts = None
         if ospec.get("objdet") is not None:
             objopts = self._options({"match": None}, ospec["objdet"])
-        self.log.append("subobj o%d hids=%r objdet=%r%s" % (oid, hids, ospec.get("objdet"), " falsy" if ospec.get("falsy") else ""))
+        self.log.append("subobj o%d (%s) hids=%r objdet=%r%s" % (oid, key, hids, ospec.get("objdet"), " falsy" if ospec.get("falsy") else ""))
         fut = self.sess.subscribe(obj, options=objopts)
         self.obj_out[oid] = Outcome(fut)
         self._expect_subscribes(hids, "subscribe-object")
@@ -364,6 +402,12 @@ class Exec:
             self.viol("C11/unsubscribe/raised%s" % ("-inside-handler" if inside else ""),
                       "unsubscribe() of an attached handler raised %r" % (e,))
             out = None
+        if hid in self.shared:
+            sibs = [x for x in L if self.shared.get(x) == self.shared[hid]]
+            if len(sibs) >= 2:
+                i = sibs.index(hid)
+                self.R.seen("same_class_unsubscribe_positions", "first" if i == 0 else "last" if i == len(sibs) - 1 else "middle")
+                self.sc_unsub.add(self.shared[hid] + (sid,))
         L.remove(hid)
         self.state[hid] = "unsubscribed"
         self.R.count("unsubscribe_calls")
@@ -666,6 +710,9 @@ class Exec:
         names = [det_name(self.Hs[x]["det"]) for x in L]
         if any(names) and not all(names):
             R.count("mixed_details_events")
+        if strict and any(self.shared.get(x, ()) + (ev["sid"],) in self.sc_unsub for x in L):
+            # an instance of a decorated class was unsubscribed, sibling instances (same class function) are still attached
+            R.count("same_class_events_after_partial_unsubscribe")
         if removed:
             R.count("unsub_in_handler_events")
             for r in removed:
@@ -743,6 +790,8 @@ class Exec:
         hid = c["hid"]
         spec = self.Hs[hid]
         R.count("invocations_compared")
+        if hid in self.shared:
+            R.count("same_class_instance_invocations")
         if spec["obj"] is not None:
             R.count("decorated_object_invocations")
             if self.Os[spec["obj"]].get("falsy"):
@@ -1101,6 +1150,39 @@ def instances(tier):
         out.append(("F/decorated-object-unsubscribe", hs, [T(0), T(1)], [{"hids": [0, 1, 2], "objdet": objdet, "falsy": falsy}], True,
                     [["subobj", 0], ["sub", 3], ["ack", 0], ["ack", 1], ["ack", 2], ["ack", 3]],
                     [["unsub", 0], ["unsub", 2], ["unsub", 3], EVK, ["event", 1, "both", 2], ["ackun", 0]]))
+    # an own-options method that sorts BEFORE option-less methods of the same object (no options given to subscribe(obj))
+    hs = [H(0, ["arg", "evt"], obj=0, own=True), H(1, None, obj=0, own=False), H(2, None, obj=0, own=False), H(1, ["flag"])]
+    out.append(("F/decorated-object-optionless-after-own-options", hs, [T(0, "prefix"), T(1), T(2)], [{"hids": [0, 1, 2], "objdet": None}],
+                True, [["subobj", 0], ["sub", 3], ["ack", 0], ["ack", 1], ["ack", 3], ["ack", 2]],
+                [EVK, ["event", 1, "both", 2], ["unsub", 1], ["event", 1, "kwargs", 1]]))
+    # H: k = 2, 3 instances of ONE decorated class share the subscription ids (one function object in Handler.fn, the
+    # instance in Handler.obj); the first / middle / last instance is unsubscribed, then events
+    for k in (2, 3):
+        for target in range(k):
+            for variant in range(2):
+                hs, objs = [], []
+                for i in range(k):
+                    hs += [H(0, ["flag"], obj=i, own=True), H(1, None, obj=i, own=True)]
+                    objs.append({"hids": [2 * i, 2 * i + 1], "objdet": None, "falsy": False, "cls": 0})
+                pre = [["subobj", i] for i in range(k)] + [["ack", 2 * i] for i in range(k)] + [["ack", 2 * i + 1] for i in range(k)]
+                if variant == 0:
+                    conc = [["unsub", 2 * target], EVK, EV, ["event", 1, "both", 2], ["unsub", 2 * ((target + 1) % k) + 1]]
+                else:
+                    # per-instance behaviour differs: one instance raises, another unsubscribes the target from inside
+                    hs[2 * ((target + 1) % k)]["raises"] = "sync"
+                    hs[2 * ((target + k - 1) % k) + 1]["unsub"] = [2 * target]
+                    conc = [["event", 1, "args", 0], EVK, EV, ["unsub", 2 * target + 1], ["event", 1, "kwargs", 1]]
+                out.append(("H/same-class-instances", hs, [T(0), T(1)], objs, True, pre, conc))
+    # .. methods without own options (options of subscribe(obj, options=..)), falsy instances, a plain handler in between
+    for target in range(3):
+        hs, objs = [], []
+        for i in range(3):
+            hs += [H(0, ["arg", "evt"], obj=i, own=False)]
+            objs.append({"hids": [i], "objdet": ["arg", "evt"], "falsy": True, "cls": 0})
+        hs.append(H(0, None))
+        pre = [["subobj", 0], ["subobj", 1], ["sub", 3], ["subobj", 2], ["ack", 0], ["ack", 1], ["ack", 3], ["ack", 2]]
+        out.append(("H/same-class-instances-object-options", hs, [T(0)], objs, False, pre,
+                    [["unsub", target], EVK, EV, ["unsub", (target + 2) % 3], ["event", 0, "args", 0], ["unsub", 3]]))
     # G: never-held / early events and refused subscriptions
     out.append(("G/never-held-and-refused", [H(0, None), H(1, ["flag"])], [T(0), T(1)], [], True, [],
                 [["sub", 0], ["sub", 1], ["nack", 0], ["ack", 1], ["event", 0, "args", 0], ["event", 1, "args", 1]]))
@@ -1141,6 +1223,37 @@ def gen_random_case(rng):
                     exact = [len(topics) - 1]
                 hs[x]["ti"] = rng.choice(exact)
         objects.append({"hids": hids, "objdet": objdet, "falsy": rng.random() < 0.25})
+    if rng.random() < 0.35:
+        # 2-3 instances of ONE decorated class (1-2 methods): same class function, different instance per handler
+        k = rng.choice([2, 2, 3])
+        objdet = rng.choice([None, ["flag"], ["arg", "evt"]])
+        falsy = rng.random() < 0.15
+        clsid = len(objects)
+        templ = []
+        for _ in range(rng.choice([1, 1, 2])):
+            own = rng.random() < 0.6
+            if own:
+                templ.append((0 if rng.random() < 0.6 else rng.randrange(len(topics)), rng.choice(DETS + [["arg", "d2"]]), True))
+            else:
+                exact = [i for i, t in enumerate(topics) if not t["match"]]
+                if not exact:
+                    topics.append(T(len(topics)))
+                    exact = [len(topics) - 1]
+                templ.append((rng.choice(exact), objdet, False))
+        new = []
+        for _ in range(k):
+            hids = []
+            for ti, det, own in templ:
+                rz = rng.choice(["sync", "apperr", "failed_future", "coro"]) if rng.random() < 0.2 else None
+                hs.append(H(ti, det, rz, (), obj=len(objects), own=own, ret="coro_ok" if rng.random() < 0.08 else None))
+                hids.append(len(hs) - 1)
+            new += hids
+            objects.append({"hids": hids, "objdet": objdet, "falsy": falsy, "cls": clsid})
+        for x in new:
+            if rng.random() < 0.3:
+                hs[x]["unsub"] = rng.sample(range(len(hs)), rng.choice([1, 1, 2]))
+        if rng.random() < 0.3:
+            hs[rng.randrange(len(hs))]["unsub"] = [rng.choice(new)]
     return {"handlers": hs, "topics": topics, "objects": objects, "fresh_sid": rng.random() < 0.6, "steps": [], "adaptive": True}
 
 
@@ -1170,7 +1283,8 @@ def run_shard(params, R):
     transport, ser = COMBOS[ci]
     R.seen("configs", "%s/%s/%s%s" % (params["fw"], transport, ser, "/purepy" if params.get("purepy") else ""))
     for k in DECIDING:
-        R.count(k, 0)
+        if k != "same_class_unsubscribe_positions":      # a distinct set, not a counter
+            R.count(k, 0)
     insts = instances(tier)
     # quick: every instance on one combination per framework (rotated by the seed); thorough: on three
     reps = 1 if tier == "quick" else 3
